@@ -184,8 +184,20 @@ type verifIPTRule struct {
 	jump  int // 0 ACCEPT, 1 DROP, 2 chain c1
 }
 
+var verifLight = false
+
 func verifPickRule(t string) verifIPTRule {
 	r := verifIPTRule{}
+	if verifLight {
+		// fewer dimensions: source, negation, protocol, jump
+		r.src = vf.FixInt(vf.Int(t+".src", 0, 2))
+		if r.src != 0 {
+			r.neg = vf.FixInt(vf.Int(t+".neg", 0, 1))
+		}
+		r.proto = vf.Int(t+".proto", 0, 3)
+		r.jump = vf.Int(t+".jump", 0, 2)
+		return r
+	}
 	r.src = vf.FixInt(vf.Int(t+".src", 0, 2))
 	if r.src != 0 {
 		r.neg = vf.FixInt(vf.Int(t+".neg", 0, 1))
@@ -306,4 +318,54 @@ func VerifIPTables() {
 	// what the device prints after loading the target compares equal to the target
 	tk := s.parseIPTables(kLines)
 	vf.Assert(diffIPTables(tk, tb) == "", "C05: target compared with its own kernel spelling reports a change")
+}
+
+// VerifDeterminismLinux (C16): the reported difference of two rulesets must
+// not depend on map iteration order.
+func VerifDeterminismLinux() {
+	vf.Assumption("map iteration schedules explored by the executor: insertion order, reversed, rotated by one (native replay: 200 runs under Go's random map order)")
+	verifLight = vf.Param("light", "0") == "1"
+	head := []string{"*filter", ":INPUT DROP", ":c1 -"}
+	ra := verifPickRule("a0")
+	rb := verifPickRule("b0")
+	aLines := append(append([]string{}, head...), verifSpell(ra, "a0", true), "COMMIT")
+	bLines := append(append([]string{}, head...), verifSpell(rb, "b0", false), "COMMIT")
+	// number of differing fields (ghost)
+	ndiff := 0
+	if ra.src != rb.src || ra.neg != rb.neg {
+		ndiff++
+	}
+	if ra.state != rb.state {
+		ndiff++
+	}
+	if vf.FixInt(ra.proto) != vf.FixInt(rb.proto) {
+		ndiff++
+	}
+	if vf.FixInt(ra.dport) != vf.FixInt(rb.dport) {
+		ndiff++
+	}
+	if vf.FixInt(ra.jump) != vf.FixInt(rb.jump) {
+		ndiff++
+	}
+	tag := ""
+	if ndiff >= 2 {
+		tag = " [rules differ in two or more options]"
+		vf.Cover("rules differ in two or more options")
+	}
+	runs := 3
+	if !vf.Symbolic() {
+		runs = 200
+	}
+	first := ""
+	for r := 0; r < runs; r++ {
+		vf.MapOrder(r % 3)
+		s := &State{}
+		d := diffIPTables(s.parseIPTables(aLines), s.parseIPTables(bLines))
+		if r == 0 {
+			first = d
+			continue
+		}
+		vf.Assert(d == first, "C16: Linux: reported iptables difference depends on map iteration order"+tag)
+	}
+	vf.MapOrder(0)
 }
